@@ -403,4 +403,94 @@ theorem strtoul_value_lt (s : List Nat) (base : Nat) (hb : base = 0 ∨ 2 ≤ ba
         have := strtoScan_i_le (cstr s) base hb
         unfold ULONG_MAX at this; omega
 
+/-! ### `endptr` stays inside the text -/
+
+theorem takeWhile_length_le {α : Type} (p : α → Bool) : ∀ l : List α, (l.takeWhile p).length ≤ l.length := by
+  intro l
+  induction l with
+  | nil => simp
+  | cons a t ih => simp only [List.takeWhile_cons]; split <;> simp; omega
+
+theorem strtoLoop_count_le (base cutoff cutlim : Nat) : ∀ (s : List Nat) (i n : Nat) (ovf : Bool),
+    (strtoLoop base cutoff cutlim s i ovf n).2.2 ≤ n + s.length := by
+  intro s
+  induction s with
+  | nil => intro i n ovf; simp [strtoLoop]
+  | cons c rest ih =>
+    intro i n ovf
+    unfold strtoLoop
+    split
+    · simp
+    · split
+      · simp
+      · split
+        · have := ih i (n + 1) true; simp only [List.length_cons]; omega
+        · rename_i d _ _ _
+          have := ih (i * base + d) (n + 1) ovf; simp only [List.length_cons]; omega
+
+theorem basePrefix_skip_le (base : Nat) (s : List Nat) : (basePrefix base s).2 ≤ s.length := by
+  unfold basePrefix
+  split
+  · split
+    · rename_i h1 h2
+      simp only
+      match s, h1, h2 with
+      | [_], _, h2 => simp [toUpper] at h2
+      | _ :: _ :: _, _, _ => simp
+    · split <;> simp
+  · split <;> simp
+
+theorem signAt_skip_le (c0 : Nat) : (signAt c0).2 ≤ 1 := by
+  unfold signAt; split <;> (try split) <;> simp
+
+/-- `endptr` never points past the terminator -/
+theorem strtoScan_endp_le (s : List Nat) (base : Nat) : (strtoScan s base).endp ≤ s.length := by
+  unfold strtoScan
+  simp only []
+  have hp0 : (List.takeWhile Num.isSpace s).length ≤ s.length := takeWhile_length_le _ _
+  split
+  · simp
+  · rename_i c0 t hd
+    have hlen1 : 1 ≤ (s.drop (List.takeWhile Num.isSpace s).length).length := by rw [hd]; simp
+    rw [List.length_drop] at hlen1
+    have hs := signAt_skip_le c0
+    have hb := basePrefix_skip_le base (s.drop ((List.takeWhile Num.isSpace s).length + (signAt c0).2))
+    rw [List.length_drop] at hb
+    split
+    · simp only []
+      split
+      · omega
+      · omega
+    · simp only []
+      have := strtoLoop_count_le (basePrefix base (s.drop ((List.takeWhile Num.isSpace s).length + (signAt c0).2))).1
+        (ULONG_MAX / (basePrefix base (s.drop ((List.takeWhile Num.isSpace s).length + (signAt c0).2))).1)
+        (ULONG_MAX % (basePrefix base (s.drop ((List.takeWhile Num.isSpace s).length + (signAt c0).2))).1)
+        (s.drop ((List.takeWhile Num.isSpace s).length + (signAt c0).2 + (basePrefix base (s.drop ((List.takeWhile Num.isSpace s).length + (signAt c0).2))).2)) 0 0 false
+      rw [List.length_drop] at this
+      omega
+
+theorem cstr_length_le (s : List Nat) : (cstr s).length ≤ s.length := takeWhile_length_le _ _
+
+theorem strtol_endp (s : List Nat) (base : Nat) : (strtol s base).endp = (strtoScan (cstr s) base).endp := by
+  unfold strtol
+  simp only []
+  split
+  · rfl
+  · split <;> (split <;> rfl)
+
+theorem strtol_endp_le (s : List Nat) (base : Nat) : (strtol s base).endp ≤ s.length := by
+  have h := strtoScan_endp_le (cstr s) base
+  have h2 := cstr_length_le s
+  rw [strtol_endp]; omega
+
+theorem strtoul_endp_le (s : List Nat) (base : Nat) : (strtoul s base).endp ≤ s.length := by
+  have h := strtoScan_endp_le (cstr s) base
+  have h2 := cstr_length_le s
+  unfold strtoul
+  simp only []
+  split
+  · show (strtoScan (cstr s) base).endp ≤ _; omega
+  · split <;> (show (strtoScan (cstr s) base).endp ≤ _; omega)
+
+
 end StVerif.Lemmas.Num
